@@ -5,6 +5,14 @@ adapter loop (`drain` / `feed` / `chunkAll`) and `greedy`, restart at a boundary
 alignment of boundaries, the padded snapshot stream.  Core Lean only. -/
 namespace Replicat
 
+/-! ### bridge lemmas for the plug-in section `tools/sections/11_chunksync.py`: the hand-written `feed` decides finality like the
+adapter ("the look-ahead piece is None"), and `RepositoryProps.chunkify` hands the repository's `chunker_params` to the adapter.
+If an edit to /repo changes either, these stop compiling (a broken proof obligation of C11). -/
+theorem Gen.chunksyncSectionOk_eq : Gen.chunksyncSectionOk = true := rfl
+theorem Gen.adapterFinalIsLookaheadNone_eq : Gen.adapterFinalIsLookaheadNone = true := rfl
+theorem Gen.chunkifyPassesKey_eq : Gen.chunkifyPassesKey = true := rfl
+theorem Gen.paddingRecognised_eq : Gen.paddingRecognised = true := rfl
+
 /-! ### the main cut under valid parameters -/
 theorem valid_max_pos {p : CParams} (hv : p.valid) : 0 < p.max := by
   obtain ⟨h1, h2, _⟩ := hv; omega
@@ -314,6 +322,21 @@ theorem chunkAll_greedy (p : CParams) (hv : p.valid) (h : Hash) (pieces : List B
   | cons pc ps =>
     have := feed_greedy p hv h (pc :: ps) [] cs (by simp) hc
     simpa using this
+
+/-! ### two ways of splitting one chunk list -/
+theorem prefix_of_flatten_le (a b c d : List Bytes) (he : a ++ b = c ++ d) (hne : ∀ x ∈ a, x ≠ [])
+    (hl : a.flatten.length ≤ c.flatten.length) : ∃ m, c = a ++ m := by
+  rcases List.append_eq_append_iff.mp he with ⟨a', hc, _⟩ | ⟨c', ha, _⟩
+  · exact ⟨a', hc⟩
+  · cases c' with
+    | nil => exact ⟨[], by simpa using ha.symm⟩
+    | cons x rest =>
+      exfalso
+      have hx : x ≠ [] := hne x (by rw [ha]; simp)
+      have : 0 < x.length := List.length_pos_iff.mpr hx
+      rw [ha] at hl
+      simp only [List.flatten_append, List.length_append, List.flatten_cons] at hl
+      omega
 
 /-! ### streams with a common prefix -/
 theorem ceil4_pos {n : Nat} (hn : 0 < n) : 0 < ceil4 n := by unfold ceil4; omega
